@@ -166,5 +166,75 @@ func checkGuarded(text string, set *cfgSet, real, deep bool) ([]finding, checkSt
 	fs, st := checkText(text, set.cfgs, real)
 	g := set.verify(deep)
 	st.comparisons += len(set.cfgs)
-	return append(fs, g...), st
+	return mergeFindings(append(fs, g...), set.cfgs), st
+}
+
+// cfgGroups are the configuration families a finding is attributed to when
+// every member (at least two) shows it: a defect that does not depend on the
+// configuration is one class, not one per configuration.
+var cfgGroups = []struct {
+	name string
+	in   func(c *formatter.Config) bool
+}{
+	{"all", func(c *formatter.Config) bool { return true }},
+	{"keeping-comments", func(c *formatter.Config) bool { return !c.StripComments }},
+	{"noncompact", func(c *formatter.Config) bool { return !c.Compact }},
+	{"noncompact-keeping-comments", func(c *formatter.Config) bool { return !c.Compact && !c.StripComments }},
+}
+
+func mergeFindings(fs []finding, cfgs []namedCfg) []finding {
+	if len(fs) < 2 || len(cfgs) < 2 {
+		return fs
+	}
+	byClass := map[string]map[string]int{} // class -> cfg name -> index of its first finding
+	var order []string
+	for i, f := range fs {
+		m := byClass[f.Class]
+		if m == nil {
+			m = map[string]int{}
+			byClass[f.Class] = m
+			order = append(order, f.Class)
+		}
+		if _, ok := m[f.Cfg]; !ok {
+			m[f.Cfg] = i
+		}
+	}
+	var out []finding
+	for _, cl := range order {
+		m := byClass[cl]
+		merged := false
+		for _, g := range cfgGroups {
+			n, all := 0, true
+			for _, c := range cfgs {
+				if g.in(c.cfg) {
+					n++
+					if _, ok := m[c.name]; !ok {
+						all = false
+					}
+				}
+			}
+			if all && n >= 2 && n == len(m) {
+				first := len(fs)
+				for _, i := range m {
+					if i < first {
+						first = i
+					}
+				}
+				f := fs[first]
+				f.Got += fmt.Sprintf(" [under every %s configuration, first %s]", g.name, f.Cfg)
+				f.Cfg = g.name
+				out = append(out, f)
+				merged = true
+				break
+			}
+		}
+		if !merged {
+			for _, f := range fs {
+				if f.Class == cl {
+					out = append(out, f)
+				}
+			}
+		}
+	}
+	return out
 }
